@@ -108,6 +108,8 @@ def mCanErr : Matcher → Bool
   | .atom _ _ => false
   | .err _ _ => true
   | .legacy _ => false
+  | .errRange _ _ => true
+  | .errIn _ => false
   | .not sets => setsCanErr sets
 def setsCanErr : List (List Matcher) → Bool
   | [] => false
